@@ -1492,7 +1492,7 @@ def immutable_table(ctx, rule, classes):
         try:
             markers = [(f'<{p}>',) for p in params]
             obj = construct(cq, markers)
-            fields = dict(object.__getattribute__(obj, '_fields'))
+            fields = {k: v for k, v in object.__getattribute__(obj, '_fields').items() if not k.startswith('__')}
             slots = Interp(ctx, mn, cn, {}, stubs).getattr(obj, '__slots__')
             if not slots or slots[-1] != '_hash':
                 problems.append(f'__slots__ {slots} does not end with _hash')
@@ -2766,3 +2766,28 @@ def no_tree_recursion_rule(ctx, rule):
                        f'{bad} can call itself (directly or through the functions it calls): a tree walk that recurses per level of the '
                        f'document raises RecursionError on trees nested deeper than the recursion limit (e.g. 1500 nested <div>), which an '
                        f'iterative walk handles')
+
+
+def util_lower_table(ctx, rule):
+    """util.lower interpreted on every ASCII code point and on non-ASCII letters that str.lower() would change: it folds exactly
+    A-Z.  (Every table replaces util.lower - which sits behind lru_cache - by a reference with that behaviour; this is the check
+    that the replacement is faithful.)"""
+    umod, lower_fn = ctx.src.func('util.lower')
+    bad = None
+    for ch in [chr(c) for c in range(128)] + ['\xc9', 'İ', 'K', 'Σ', '\U0001d400', 'ß', 'ǅ']:
+        text = 'x' + ch + 'y'
+        try:
+            got = call_function(ctx, 'util.lower', [text], {}, {}, None)
+        except Raised as e:
+            got = f'raises {e.exc_name}'
+        except Unsupported as e:
+            raise AnalysisError(f'util.lower: outside the evaluable fragment: {e}')
+        exp = 'x' + (chr(ord(ch) + 32) if 'A' <= ch <= 'Z' else ch) + 'y'
+        rule.instance({'char': repr(ch), 'lower': repr(got)}, key=f'lower|{ch!r}', sample_cap=3)
+        if got != exp and bad is None:
+            bad = (text, got, exp)
+    rule.obligation(bad is None)
+    if bad is not None:
+        rule.violation('util.lower ascii fold', umod.where(lower_fn),
+                       f'util.lower({bad[0]!r}) = {bad[1]!r}, expected {bad[2]!r}: ASCII case folding must map exactly A-Z to a-z and leave every '
+                       f'other character alone (names that differ in a non-ASCII letter are different names)')
